@@ -8,10 +8,13 @@ RULE = ("all grammars of depth <= 2 over an 8-leaf pool x all strings of length 
         "seeded random deep grammars (no actions, no names) with sampled and mutated inputs; per case: (i) extracted model vs "
         "implementation (success/failure, end, tokens), (ii) the Coq reference reading `peg` vs the implementation on every grammar of "
         "the reference class, (iii) membership in the proved class `in_class` is evaluated by the model and counted; "
-        "non-trivial = grammar with >= 3 nodes and non-empty input")
+        "(iv) an independent surface-level transcription of the reading (tools/harness/peg_ref.py: whitespace rule decided structurally, "
+        "not from the objects' flags) vs the implementation, incl. a family of '&' (Each) grammars over plain / Opt / ZeroOrMore / OneOrMore operands with "
+        "permuted and repeated operand inputs; non-trivial = grammar with >= 3 nodes and non-empty input")
 TRUSTED = pcommon.TRUSTED_PARSE + [
     "the reading `peg` (coq/Model/Peg.v) is the formal statement of the property; `in_class` delimits what is proved "
-    "(Or, Combine, stop_on are compared with the reference by correspondence only; Each, SkipTo only model-vs-implementation)"]
+    "(Or, Combine, stop_on are compared with the reference by correspondence only; SkipTo only model-vs-implementation)",
+    "Each ('&') is not in the Coq model: the implementation is compared with tools/harness/peg_ref.py (a transcription of the property's reading) only"]
 
 
 def peg_of_real(o):
@@ -96,6 +99,67 @@ def run(ctx, groups, oracle_only=False):
     return recs
 
 
+EACH_POOL = [("lit", "x"), ("lit", "c"), ("word", "12"), ("and", ("opt", ("lit", "a")), ("opt", ("lit", "b")), ("lit", "c")),
+             ("and", ("lit", "a"), ("and", ("opt", ("lit", "b")), ("opt", ("lit", "c")))), ("and", ("and", ("opt", ("lit", "a")), ("opt", ("lit", "b"))), ("lit", "y")),
+             ("opt", ("lit", "z")), ("opt", ("word", "12")), ("star", ("lit", "s")), ("plus", ("lit", "p")), ("group", ("and", ("lit", "g"), ("opt", ("lit", "h")))),
+             ("mf", ("lit", "m"), ("lit", "n")), ("kw", "k")]
+
+
+def each_family(ctx):
+    """'&' is outside the Coq model: the implementation is compared with the surface-level reading only"""
+    import itertools
+    rng = ctx.rng
+    n = 150 if not ctx.thorough else 1500
+    ncase = 0
+    for i in range(n):
+        ops = rng.sample(EACH_POOL, rng.choice([2, 2, 3, 3, 4]))
+        g = ("each",) + tuple(ops)
+        if rng.random() < 0.3:
+            g = rng.choice([("and", g, ("lit", "!")), ("group", g), ("mf", ("and", g, ("lit", "!")), g), ("opt", g)])
+        inputs = set()
+        for _ in range(6):
+            pieces = [gen.sample_input(rng, o, {}) for o in rng.sample(ops, len(ops))]
+            if rng.random() < 0.6:
+                pieces.insert(rng.randint(0, len(pieces)), gen.sample_input(rng, rng.choice(ops), {}))     # an operand repeated
+            s = " ".join(p for p in pieces if p)
+            inputs.add(s)
+            inputs.add(gen.mutate_input(rng, s, "abcxyz12 "))
+        for inp in sorted(inputs):
+            a = pcommon.single(g, {}, inp, ("none",), ("parse", False)) if False else None
+            want = peg_ref.reading(g, {}, inp)
+            got = each_impl(g, inp)
+            if want is None or got is None or want[0] == "div" or got[0] == "div":
+                continue
+            ncase += 1
+            ctx.case("each:%r|%r" % (g, inp), nontrivial=len(inp) >= 3, agreed=True)
+            if want != got:
+                ctx.violation("each:%r|%r" % (g, inp), "parse_string of %r on %r gives %r but the PEG reading of '&' gives %r" % (g, inp, got, want),
+                              {"kind": "each", "grammar": g, "input": inp})
+    ctx.stat("each_cases", ncase)
+
+
+def each_impl(g, inp):
+    import pyparsing as pp
+    from tools.harness import build
+    try:
+        e = build.Builder({}).build_all(g)
+    except build.Unbuildable:
+        return None
+    def run():
+        try:
+            r = e.parse_string(inp)
+            return ("ok", [peg_ref._tag(t) for t in r.as_list()])
+        except pp.ParseException:
+            return ("fail",)
+        except pp.ParseBaseException as x:
+            return ("other", type(x).__name__)
+        except RecursionError:
+            return ("div",)
+    from tools.props.c04 import guarded
+    r = guarded(run, 1.0)
+    return ("div",) if r == ("timeout",) else r
+
+
 def correspond(ctx):
     corr.ensure_driver()
     groups = pcommon.grammar_groups(
@@ -104,6 +168,7 @@ def correspond(ctx):
         modes=[("none",)], entries=[("parse", False), ("peg",)], inputs_per=5,
         enum_depth=2, enum_inputs=gen.enum_inputs(2 if not ctx.thorough else 3, "ab, ") + ["a b", "(a)", "ab ab", "((a) b)", "a,b"])
     recs = run(ctx, groups)
+    each_family(ctx)
     for r in [x for x in recs if x["entry"][0] == "parse"][200:203]:
         ctx.sample({"grammar": r["g"], "input": r["inp"], "impl": peg_of_real(r["real"])})
 
@@ -134,6 +199,12 @@ def replay(ctx, obj):
         g, env = _tuplify(r["grammar"]), {int(k): _tuplify(v) for k, v in (r.get("env") or {}).items()}
         rr = corr.run_groups([(g, env, [r["input"]], [("none",)], [("parse", False), ("peg",)])])
         want, got = peg_of_ref(rr[1]["model"][3]), peg_of_real(rr[0]["real"])
+        print("implementation:", got)
+        print("PEG reading   :", want)
+        return want == got
+    if r.get("kind") == "each":
+        g = _tuplify(r["grammar"])
+        got, want = each_impl(g, r["input"]), peg_ref.reading(g, {}, r["input"])
         print("implementation:", got)
         print("PEG reading   :", want)
         return want == got
